@@ -378,6 +378,16 @@ func main() {
 		if anyFlaky {
 			// nothing to compare
 		} else if a.Result != "skipped" && a.Result != b.Result && a.Result != "panic" && b.Result != "panic" {
+			stable := true
+			for k := 0; k < 3 && stable; k++ {
+				a2, b2 := w.evalPath(c, "standalone"), w.evalPath(c, "server")
+				stable = a2.Result == a.Result && b2.Result == b.Result
+			}
+			if !stable {
+				report(fmt.Sprintf("flaky:%s:sign-fails", t.Name),
+					fmt.Sprintf("%s :: standalone: %s %s / server: %s %s -- the difference does not repeat on identical re-runs: the outcome of signing this input is not deterministic", c.id("both"), a.Result, a.Err, b.Result, b.Err), c.replay("both"))
+				return
+			}
 			sub := w.blameSearch(st, c, canon, "both", "paths-disagree")
 			report(fmt.Sprintf("paths-disagree:%s:standalone-%s-server-%s:%s", t.Name, a.Result, b.Result, sub),
 				fmt.Sprintf("%s :: standalone: %s %s / server: %s %s", c.id("both"), a.Result, a.Err, b.Result, b.Err), c.replay("both"))
